@@ -169,6 +169,7 @@ class Run:
         self.model_violations = []
         self.traces_validated = 0
         self.extra = {}
+        self.sites = None      # violation sites that belong to this property (None = all)
         self.assumptions = []
         self.rule = ""
         self.t0 = time.time()
@@ -209,11 +210,14 @@ def match_known(pid, viol, known):
 def finish(run):
     pid = run.pid
     known = load_known()
-    viols, known_hits = [], {}
+    viols, known_hits, other_sites = [], {}, {}
     total_viol = 0
     for s in run.summaries:
         total_viol += s["violation_count"]
         for v in s["violations"]:
+            if run.sites is not None and v.get("site") not in run.sites:
+                other_sites[v.get("site")] = other_sites.get(v.get("site"), 0) + 1
+                continue
             k = match_known(pid, v, known)
             if k:
                 known_hits.setdefault(k["id"], [k, 0])[1] += 1
@@ -223,6 +227,10 @@ def finish(run):
     # rest are the same finding only when all stored ones matched (conservative otherwise).
     stored = sum(len(s["violations"]) for s in run.summaries)
     unclassified = total_viol - stored
+    if run.sites is not None:
+        unclassified = 0   # the per-site split of unstored violations is unknown; stored ones decide
+    for site, n in other_sites.items():
+        log("NOTE: %d stored violation(s) at site '%s' belong to another property's check" % (n, site))
     for kid, (k, n) in known_hits.items():
         log("KNOWN-FINDING: property=%s %s (%d occurrence(s) this run)" % (pid, k["what"], n))
     rc = 0
